@@ -21,7 +21,7 @@ func init() {
 	fw.Register(&fw.Prop{
 		ID:       "C06",
 		Parallel: 4, // cases are judged on 4 goroutines per shard: the library functions are stateless, shared state inside them shows up as wrong verdicts
-		Rule: "seeded histories of 3..14 operations on up to three instances (Absorb of 1..6 blocks split over several calls, Squeeze of 1..4 blocks in several calls with 1..64 destination lanes, Clone at any point with the two copies continued differently, Reset followed by new absorbs, rejected calls with batch 0/65 or a length that is no multiple of 243) with batch sizes 1..64 (emphasis 1, 2, 63, 64) and trit contents random / all 0 / all 1 / all -1 / lanes identical but one trit / one hot lane; every squeezed lane is compared with a single-lane model sponge fed that lane's input alone; rejected calls must return the documented error and leave CopyState unchanged; Reset must give the CopyState of a fresh instance; a clone's state equals the original's and later operations on one do not change the other; the closing squeezes of all instances of a history (originals and clones) run concurrently in separate goroutines; in half of the histories the caller's dst slice is reused from call to call (a quarter pre-filled with one shared placeholder slice) and every output handed out earlier must be unchanged at the end. Run under the default (assembly) and the purego build; the output digests of the two builds must be equal. " +
+		Rule: "seeded histories of 3..14 operations on up to three instances (Absorb of 1..6 blocks split over several calls, Squeeze of 1..4 blocks in several calls with 1..64 destination lanes, Clone at any point with the two copies continued differently, Reset followed by new absorbs, zero-length Absorb and Squeeze pieces (no effect in the model whether refused or accepted; no Absorb follows an empty Squeeze), rejected calls with batch 0/65 or a length that is no multiple of 243) with batch sizes 1..64 (emphasis 1, 2, 63, 64) and trit contents random / all 0 / all 1 / all -1 / lanes identical but one trit / one hot lane; every squeezed lane is compared with a single-lane model sponge fed that lane's input alone; rejected calls must return the documented error and leave CopyState unchanged; Reset must give the CopyState of a fresh instance; a clone's state equals the original's and later operations on one do not change the other; the closing squeezes of all instances of a history (originals and clones) run concurrently in separate goroutines; in half of the histories the caller's dst slice is reused from call to call (a quarter pre-filled with one shared placeholder slice) and every output handed out earlier must be unchanged at the end. Run under the default (assembly) and the purego build; the output digests of the two builds must be equal. " +
 			"Non-trivial: distinct histories with batch size < 64, or >= 2 absorb calls, or >= 2 squeeze calls, or a clone/reset.",
 		Assumptions: []string{"the single-lane Curl-P-81 model in harness/oracle/curlp (self-tested on published Curl-P-81 hashes incl. multi-block absorb and squeeze)", "absorb-after-squeeze (documented panic) and lanes beyond the absorbed batch are outside the statement and not judged"},
 		Builds:      []string{"default", "purego", "386"},
@@ -32,7 +32,7 @@ func init() {
 			h := describe(fw.GetU64(key))
 			return map[string]interface{}{"history_seed": fw.GetU64(key), "operations": h}
 		},
-		Required: []string{"histories reusing the caller's dst slice", "histories whose instances were squeezed concurrently", "lanes compared", "absorb calls", "squeeze calls", "clones", "resets", "rejected calls checked", "partial batch histories"},
+		Required: []string{"histories reusing the caller's dst slice", "histories whose instances were squeezed concurrently", "lanes compared", "absorb calls", "squeeze calls", "clones", "resets", "rejected calls checked", "partial batch histories", "zero-length absorb/squeeze calls"},
 		Post: func(r *fw.RunResult) {
 			d, p := r.BuildDigests["default"], r.BuildDigests["purego"]
 			r.Extra["build_digests_equal"] = d == p && d != ""
@@ -113,6 +113,15 @@ func build(seed uint64) *history {
 			h.ops = append(h.ops, op{kind: "bad-absorb", inst: i, bad: r.Intn(4), blocks: 1 + r.Intn(2)})
 		case k == 10:
 			h.ops = append(h.ops, op{kind: "bad-squeeze", inst: i, bad: r.Intn(4), blocks: 1 + r.Intn(2)})
+		case k == 11 && r.Intn(2) == 0:
+			// a zero-length piece (0 is a multiple of 243): absorbs nothing / squeezes nothing. The instance
+			// is not absorbed into afterwards (whether an empty Squeeze starts the squeezing phase is not fixed).
+			if !squeezing[i] && r.Intn(2) == 0 {
+				h.ops = append(h.ops, op{kind: "absorb", inst: i, blocks: 0, style: r.Intn(8)})
+			} else {
+				h.ops = append(h.ops, op{kind: "squeeze", inst: i, blocks: 0, lanes: h.batch})
+				squeezing[i] = true
+			}
 		}
 	}
 	// finish: every instance is squeezed once more so that all earlier effects become observable
@@ -166,7 +175,9 @@ func content(r *rand.Rand, lanes, n, style int) []trinary.Trits {
 			}
 		case 3: // identical lanes except one trit
 			copy(t, base)
-			t[r.Intn(n)] = rt()
+			if n > 0 {
+				t[r.Intn(n)] = rt()
+			}
 		case 4: // one hot lane among zero lanes
 			if j == hot {
 				copy(t, base)
@@ -322,6 +333,13 @@ func judge(class string, key []byte, o *fw.Obs) {
 			if !o.Try("Absorb", func() { err = in.c.Absorb(src, n) }) {
 				return
 			}
+			if n == 0 {
+				// a zero-length piece may be refused or accepted; either way nothing is absorbed
+				o.Count("zero-length absorb/squeeze calls")
+				if err != nil {
+					continue
+				}
+			}
 			if err != nil {
 				o.Fail("error", "%s: valid Absorb returned %v", where, err)
 				return
@@ -343,6 +361,14 @@ func judge(class string, key []byte, o *fw.Obs) {
 			var err error
 			if !o.Try("Squeeze", func() { err = in.c.Squeeze(dst, n) }) {
 				return
+			}
+			if n == 0 {
+				// a zero-length piece may be refused or accepted; either way nothing is squeezed and the
+				// next non-empty Squeeze delivers the next block of the sponge
+				o.Count("zero-length absorb/squeeze calls")
+				if err != nil {
+					continue
+				}
 			}
 			if err != nil {
 				o.Fail("error", "%s: valid Squeeze returned %v", where, err)
